@@ -2,7 +2,7 @@
 //! dependencies on /repo, i.e. the current working tree) on generated cases and
 //! prints one line per case: family, input fields, canonicalised observation.
 //!
-//! usage: tephra-harness <family> <quick|thorough> <seed> [shard shards]
+//! usage: tephra-harness <family> <quick|thorough> <seed> [shard shards [start_at]]
 //!        tephra-harness replay        (case lines on stdin; observations recomputed)
 
 mod gen;
@@ -10,6 +10,8 @@ mod wire;
 mod l0;
 mod scan;
 mod lex;
+mod grammar;
+mod run;
 
 fn main() {
     let args: Vec<String> = std::env::args().collect();
@@ -20,7 +22,7 @@ fn main() {
         return;
     }
     if args.len() < 4 {
-        eprintln!("usage: {} <family> <quick|thorough> <seed> [shard shards]", args[0]);
+        eprintln!("usage: {} <family> <quick|thorough> <seed> [shard shards [start_at]]", args[0]);
         std::process::exit(2);
     }
     let family = args[1].as_str();
@@ -29,7 +31,8 @@ fn main() {
     let shard: usize = args.get(4).and_then(|s| s.parse().ok()).unwrap_or(0);
     let shards: usize = args.get(5).and_then(|s| s.parse().ok()).unwrap_or(1);
     let mut rng = gen::Rng::new(seed ^ fam_salt(family));
-    let mut out = wire::Out::new(shard, shards);
+    let start_at: usize = args.get(6).and_then(|s| s.parse().ok()).unwrap_or(0);
+    let mut out = wire::Out::new(shard, shards, start_at);
     match family {
         "spanops" => l0::spanops(&mut out, &tier, &mut rng),
         "nav" => l0::nav(&mut out, &tier, &mut rng),
@@ -37,6 +40,8 @@ fn main() {
         "window" => l0::window(&mut out, &tier, &mut rng),
         "lexiter" => lex::lexiter(&mut out, &tier, &mut rng),
         "lexops" => lex::lexops(&mut out, &tier, &mut rng),
+        "peg" | "rep" | "capture" | "errors" | "bracket" | "list" | "recover" | "twice" | "scoped" | "ctxops"
+        | "term" | "nopanic" => run::family(&mut out, family, &tier, &mut rng),
         _ => {
             eprintln!("unknown family {family}");
             std::process::exit(2);
@@ -55,7 +60,7 @@ fn replay() {
         let family = parts[0];
         // the last field is the recorded observation; everything between is input
         let fields = &parts[1..parts.len() - 1];
-        let obs = std::panic::catch_unwind(|| l0::replay(family, fields).or_else(|| lex::replay(family, fields)))
+        let obs = std::panic::catch_unwind(|| l0::replay(family, fields).or_else(|| lex::replay(family, fields)).or_else(|| run::replay(family, fields)))
             .ok()
             .flatten()
             .unwrap_or_else(|| "unreplayable".to_string());
